@@ -181,6 +181,9 @@ def _lut_functions(repo, rep):
             for m in (go, repo.mod("numeric_util")):
                 if f.id in m.functions:
                     target = (m, f.id)
+            # a helper defined inside the rewrite itself (def sqrt(value): ...)
+            if target is None and f"{fn.name}.{f.id}" in go.functions:
+                target = (go, f"{fn.name}.{f.id}")
         if target is None:
             rep.bad("C19-e", site, f"{opn} table is generated from the real function {title}", f"generated from `{txt}`, which is neither the library {title} nor a Vela helper the analysis can interpret")
             continue
